@@ -7,6 +7,7 @@
   ASan + UBSan + ENABLE_ASSERT build (an abort is a violation with the operation as replay).
 -/
 import PsProofs.Fill
+import PsProofs.Wheel
 import PsModel.Generated.Asserts
 import PsModel.Generated.Tables
 import PsModel.Erat
@@ -59,6 +60,17 @@ theorem C12_fill_avx512_in_bounds (maxSize : Nat) (hm : 8 ≤ maxSize) (pcs : Li
 theorem C12_fill_prev_in_bounds (pcs : List Nat) (i cap : Nat) (hpc : ∀ pc ∈ pcs, pc ≤ 64) :
     ∀ w ∈ (fillPrevDefault pcs i cap).1, w.1 < w.2 :=
   fillPrevDefault_in_bounds pcs i cap hpc
+
+/-- **C12 (EratSmall unrolled loop)** regenerated from EratSmall.cpp: in each of the 8 unrolled loops every store offset is componentwise ≤
+    the loop's maxOffset, so under the loop condition i < max(sieveSize, maxOffset) - maxOffset all 8 stores
+    `sieve[i + sievingPrime·A + B]` address bytes inside [0, sieveSize), for every sieving prime and sieve size
+    (the single-step cases write sieve[i] only after CHECK_FINISHED has established i < sieveSize; EratBig
+    masks the index with sieveSize - 1) -/
+theorem C12_eratSmall_unrolled_in_bounds (u : Nat × Nat × Nat × Nat × Nat × List (Nat × Nat × Nat))
+    (hu : u ∈ Gen.eratSmallUnrolled) (sp i sieveSize : Nat)
+    (hi : i < max sieveSize (sp * u.2.1 + u.2.2.1) - (sp * u.2.1 + u.2.2.1)) :
+    ∀ st ∈ u.2.2.2.2.2, i + sp * st.1 + st.2.1 < sieveSize :=
+  Wheel.unrolled_in_bounds u hu sp i sieveSize hi
 
 /-- **C12 (decode tables)** `nextPrime` reads bitValues[ctz64(bits)] with ctz64(0) = 64: the regenerated table
     has 65 entries; Erat reads unsetSmaller / unsetLarger at byteRemainder(n) ∈ [7, 36]: both
